@@ -32,23 +32,24 @@ type park struct {
 // harness through FetchIntoForVerif; a proxy task is run by the errgroup of a
 // RealizeDescriptions call.
 type task struct {
-	id       int
-	key      int
-	badURI   bool
-	alt      bool // asks for the layer under its second URI
-	ctx      context.Context
-	cancel   context.CancelFunc
-	layer    *claircore.Layer
-	cl       io.Closer
-	desc     claircore.LayerDescription
-	gid      int64
-	at       *park
-	st       string // unborn enter waiting got reffed valok stale holding failed closed
-	finished bool
-	err      error
-	gen      int    // which rc of its key the flight handed to the task (-1: none)
-	call     *pcall // the RealizeDescriptions call this closure belongs to (nil: bare)
-	idx      int
+	id        int
+	key       int
+	badURI    bool
+	alt       bool // asks for the layer under its second URI
+	ctx       context.Context
+	cancel    context.CancelFunc
+	layer     *claircore.Layer
+	cl        io.Closer
+	desc      claircore.LayerDescription
+	gid       int64
+	at        *park
+	st        string // unborn enter waiting got reffed valok stale holding failed closed
+	finished  bool
+	err       error
+	gen       int    // which rc of its key the flight handed to the task (-1: none)
+	call      *pcall // the RealizeDescriptions call this closure belongs to (nil: bare)
+	idx       int
+	cancelled bool
 }
 
 // pcall is one RealizeDescriptions call in progress (the mirror of the model's Call).
@@ -1065,6 +1066,10 @@ func (s *sched) cancelTask(t *task) {
 	s.cur = fmt.Sprintf("cancel %d", t.id)
 	out := "noeffect"
 	t.cancel()
+	t.cancelled = true
+	if t.st != "waiting" && !s.quiet {
+		s.r.Count("branch:cancelled-outside-the-select state=" + t.st)
+	}
 	if t.st == "waiting" {
 		out = "cancelled"
 		if s.pump("ctx.Done", func() bool { return t.at != nil || t.finished }) && t.at != nil && t.at.site == "c10.ctxdone" {
@@ -1479,6 +1484,11 @@ func (s *sched) enabled(rnd *hx.Rand, drain bool) []choice {
 			cs = append(cs, choice{8, func() { s.retry(t) }, "retry"})
 		case "valok":
 			cs = append(cs, choice{6, func() { s.initTask(t) }, "init"})
+			if !drain && t.call == nil && !t.cancelled {
+				// the user's context is cancelled while the closure is between Val and Init:
+				// neither looks at it, the layer is initialised and held all the same
+				cs = append(cs, choice{1, func() { s.cancelTask(t) }, "cancel"})
+			}
 		case "holding":
 			if t.call != nil {
 				// the handle belongs to its proxy
